@@ -258,11 +258,13 @@ structure TInv (t : Tid) (g : G) (st : List Frame) (p : List Tok) : Prop where
   view : view t g = interp st
 
 /-- **the simulation step**: an enabled token of thread `t` keeps `global_lock` consistent, keeps `t`'s part of the
-invariant, and can only happen when the mutex is free or held by `t` (and leaves it free or held by `t`) -/
+invariant, and — unless it is a repeated coap_startup(), which leaves `global_lock` exactly as it is — can only happen
+when the mutex is free or held by `t` (and leaves it free or held by `t`) -/
 theorem tok_sim {rc : Bool} {t : Tid} {tok : Tok} {rest : List Tok} {g g' : G} {st : List Frame}
     (hc : Cons g) (hi : TInv t g st (tok :: rest)) (hs : tokStep rc t tok g = some g') :
-    Cons g' ∧ TInv t g' (stackStep tok st) rest ∧ (g.owner = none ∨ g.owner = some t) ∧
-    (g'.owner = none ∨ g'.owner = some t) := by
+    Cons g' ∧ TInv t g' (stackStep tok st) rest ∧
+    ((tok = .startup ∧ g' = g) ∨
+     ((g.owner = none ∨ g.owner = some t) ∧ (g'.owner = none ∨ g'.owner = some t))) := by
   obtain ⟨hok, hlen, hwn, hview⟩ := hi
   have hgood := interp_good st hok
   cases tok with
@@ -276,7 +278,7 @@ theorem tok_sim {rc : Bool} {t : Tid} {tok : Tok} {rest : List Tok} {g g' : G} {
     rw [← hview] at ga
     have hk : (view t g).k < maxDepth := by rw [hview]; have := hgood.2.2; omega
     obtain ⟨c', v', o, o'⟩ := lock_sim hc ga hk hs
-    refine ⟨c', ⟨?_, ?_, hna.2.2, ?_⟩, o, Or.inr o'⟩
+    refine ⟨c', ⟨?_, ?_, hna.2.2, ?_⟩, Or.inr ⟨o, Or.inr o'⟩⟩
     · simp [stackStep, okStack, hna.1, hok]
     · simp [stackStep]; omega
     · rw [v', hview]; rfl
@@ -292,7 +294,7 @@ theorem tok_sim {rc : Bool} {t : Tid} {tok : Tok} {rest : List Tok} {g g' : G} {
       subst hs
       obtain ⟨c', v', o, o'⟩ := unlock_sim hc gl hk
       have g0 := (interp_good st0 hok.2).2.1 hok.1
-      refine ⟨c', ⟨hok.2, ?_, h, ?_⟩, Or.inr o, o'⟩
+      refine ⟨c', ⟨hok.2, ?_, h, ?_⟩, Or.inr ⟨Or.inr o, o'⟩⟩
       · simp [stackStep] at hlen ⊢; omega
       · rw [v', hview]; exact unlockA_lockA g0
     | [], h, _, _, _, _ => simp [Lock.wn] at h
@@ -317,11 +319,11 @@ theorem tok_sim {rc : Bool} {t : Tid} {tok : Tok} {rest : List Tok} {g g' : G} {
           cases k <;> simp [Cb.releases] at hr <;> simp [cbBefore, checkLocked_id hc ho]
         rw [hcb]
         obtain ⟨c', v', o, o'⟩ := unlock_sim hc gl (Nat.le_of_lt hkl)
-        refine ⟨c', ⟨hok', hlen', h.2, ?_⟩, Or.inr o, o'⟩
+        refine ⟨c', ⟨hok', hlen', h.2, ?_⟩, Or.inr ⟨Or.inr o, o'⟩⟩
         rw [v', hview]; simp [stackStep, interp, pushA, hr]
       · have hr' : k.releases = false := by simpa using hr
         obtain ⟨c', v', o, o'⟩ := keepIn_sim k hr' hc gl hkl
-        refine ⟨c', ⟨hok', hlen', h.2, ?_⟩, Or.inr o, Or.inr o'⟩
+        refine ⟨c', ⟨hok', hlen', h.2, ?_⟩, Or.inr ⟨Or.inr o, Or.inr o'⟩⟩
         rw [v', hview]; simp [stackStep, interp, pushA, hr']
     | [], h, _, _, _, _ => simp [Lock.wn] at h
     | .cb _ :: _, h, _, _, _, _ => simp [Lock.wn] at h
@@ -344,19 +346,29 @@ theorem tok_sim {rc : Bool} {t : Tid} {tok : Tok} {rest : List Tok} {g g' : G} {
         have hs' : lockFunc rc t g = some g' := by
           cases k <;> simp [Cb.releases] at hr <;> simpa [tokStep, cbAfter] using hs
         obtain ⟨c', v', o, o'⟩ := lock_sim hc ga hk hs'
-        refine ⟨c', ⟨hok.2, by simp [stackStep]; omega, hwn0, ?_⟩, o, Or.inr o'⟩
+        refine ⟨c', ⟨hok.2, by simp [stackStep]; omega, hwn0, ?_⟩, Or.inr ⟨o, Or.inr o'⟩⟩
         rw [v', hv]; exact lockA_unlockA gl1
       · have hr' : k.releases = false := by simpa using hr
         have hv : view t g = ⟨true, (interp st0).k + 1, (interp st0).c⟩ := by
           rw [hview]; simp [interp, pushA, hr', gl1.1]
         have hkb : (interp st0).k + 1 ≤ maxDepth := by have := ig0.2.2; omega
         obtain ⟨c', v', o, o'⟩ := keepOut_sim k hr' hc (interp st0) hv hkb (by simpa [tokStep] using hs)
-        refine ⟨c', ⟨hok.2, by simp [stackStep]; omega, hwn0, ?_⟩, Or.inr o, Or.inr o'⟩
+        refine ⟨c', ⟨hok.2, by simp [stackStep]; omega, hwn0, ?_⟩, Or.inr ⟨Or.inr o, Or.inr o'⟩⟩
         rw [v']; simp [stackStep]
         have := gl1.1
         cases hh : interp st0; simp [hh] at this; simp [this]
     | [], h, _, _, _, _ => simp [Lock.wn] at h
     | .api :: _, h, _, _, _, _ => simp [Lock.wn] at h
+  | startup =>
+    -- A2: coap_started = 1, the call returns at its guard
+    simp only [tokStep, startupFunc, if_true, Option.some.injEq] at hs
+    subst hs
+    have hwn' : Lock.wn st rest = true := by
+      match st, hwn with
+      | [], h => simpa [Lock.wn] using h
+      | .cb k :: st0, h => simpa [Lock.wn] using h
+      | .api :: st0, h => simp [Lock.wn] at h
+    exact ⟨hc, ⟨hok, hlen, hwn', hview⟩, Or.inl ⟨rfl, rfl⟩⟩
 
 /-- the invariant of the interleaving semantics -/
 structure Inv (s : Sys) : Prop where
@@ -375,13 +387,15 @@ theorem inv_step {rc : Bool} {s s' : Sys} (hi : Inv s) (hs : Step rc s s') : Inv
   | mk t tok rest g' hp hs =>
     have ht := hi.thr t
     rw [hp] at ht
-    obtain ⟨c', ti', o, o'⟩ := tok_sim hi.cons ht hs
+    obtain ⟨c', ti', ho⟩ := tok_sim hi.cons ht hs
     refine ⟨c', fun u => ?_⟩
     by_cases hu : u = t
     · subst hu; simpa [Sys.upd] using ti'
     · have hv := hi.thr u
       simp only [Sys.upd, hu, if_false]
-      exact ⟨hv.ok, hv.len, hv.wn, by rw [view_other o' hu, ← hv.view, view_other o hu]⟩
+      rcases ho with ⟨_, hg⟩ | ⟨o, o'⟩
+      · exact ⟨hv.ok, hv.len, hv.wn, by rw [hg]; exact hv.view⟩
+      · exact ⟨hv.ok, hv.len, hv.wn, by rw [view_other o' hu, ← hv.view, view_other o hu]⟩
 
 theorem inv_reach {rc : Bool} {progs : Tid → List Tok} (h : ∀ t, wn [] (progs t) = true) {s : Sys}
     (hr : Reach rc progs s) : Inv s := by
@@ -439,6 +453,7 @@ theorem blocking_tok {rc : Bool} {t : Tid} {tok : Tok} {g : G} (h : tokStep rc t
   | lock => exact ⟨Or.inl rfl, h⟩
   | unlock => simp [tokStep] at h
   | cbIn k => simp [tokStep] at h
+  | startup => simp [tokStep] at h
   | cbOut k =>
     refine ⟨Or.inr ⟨k, rfl⟩, ?_⟩
     cases k <;> simp [tokStep, cbAfter] at h <;> exact h
